@@ -134,11 +134,11 @@ def cfg3 : Cfg := jointCfg [1, 2, 3] []
 
 theorem cfg3_ok : cfg3.OK := jointCfg_ok [1, 2, 3] [] (by decide) (by decide) (by decide)
 
-/-- node 1 campaigns, node 3 grants (durably), node 1 is elected in term 1, appends `(1,7)`,
-replicates it to node 3, receives the durable acknowledgement and commits index 1; node 3 learns
-the commit index from a heartbeat. -/
+/-- node 1 campaigns and sends its vote request, node 3 grants (durably), node 1 is elected in
+term 1, appends `(1,7)`, replicates it to node 3, receives the durable acknowledgement and commits
+index 1; node 3 learns the commit index from a heartbeat. -/
 def demoTrace : List Action := [
-  .campaign 1, .write 1, .persist 1,
+  .campaign 1, .sendReqVote 1, .write 1, .persist 1,
   .updateTerm 3 1, .grant 3 1 0 0, .write 3, .persist 3, .sendVote 3 1 1,
   .becomeLeader 1 [1, 3],
   .leaderAppend 1 7, .write 1, .persist 1,
@@ -159,6 +159,14 @@ example : (run cfg3 State.init demoTrace).map (fun s => ((s.nodes 1).role, (s.no
 
 /-- the guards are not trivially true: a second candidate cannot win term 1 with one vote -/
 example : (run cfg3 State.init (demoTrace ++ [.becomeLeader 2 [2]])).isSome = false := by decide
+
+/-- `sendReqVote` is for candidates only (the leader of the demo run cannot take it), and a vote can
+only be granted on a request that is in the soup: campaigning alone does not put it there -/
+example : (run cfg3 State.init (demoTrace ++ [.sendReqVote 1])).isSome = false := by decide
+example : (run cfg3 State.init [.campaign 1, .updateTerm 3 1, .grant 3 1 0 0]).isSome = false := by
+  decide
+example : (run cfg3 State.init [.campaign 1, .sendReqVote 1, .sendReqVote 1, .updateTerm 3 1,
+    .grant 3 1 0 0]).isSome = true := by decide
 
 /-- every state produced by `run` from a reachable state is reachable -/
 theorem reachable_of_run (cfg : Cfg) (s s' : State) (as : List Action) (hs : Reachable cfg s)
@@ -184,11 +192,12 @@ example : ∀ s, run cfg3 State.init demoTrace = some s →
 
 The trace below was enabled in the model as originally written and ended with two different entries
 committed at index 1.  With the `reqVotesCovered` conjunct in the guard of `becomeLeader` it is
-rejected exactly at the second election (action 31, 0-based): the second candidacy's log `[]` is
-strictly less up to date than the `(lastTerm 1, lastIdx 1)` advertised by the first request. -/
+rejected exactly at the second election (action 34, 0-based): the second candidacy's log `[]` is
+strictly less up to date than the `(lastTerm 1, lastIdx 1)` advertised by the first request (which
+node 2 did send before it crashed). -/
 
 def issue1Trace : List Action := [
-  .campaign 1, .write 1, .persist 1,
+  .campaign 1, .sendReqVote 1, .write 1, .persist 1,
   .updateTerm 3 1, .grant 3 1 0 0, .write 3, .persist 3, .sendVote 3 1 1,
   .becomeLeader 1 [1, 3],
   .leaderAppend 1 7, .write 1, .persist 1,
@@ -196,34 +205,90 @@ def issue1Trace : List Action := [
   .updateTerm 2 1, .handleApp 2 1 0 0 [⟨1, 7⟩] 0,
   .handleApp 3 1 0 0 [⟨1, 7⟩] 0, .write 3, .persist 3, .sendAck 3 1 1,
   .leaderCommit 1 1 [1, 3],
-  .campaign 2,
+  .campaign 2, .sendReqVote 2,
   .crash 2,
-  .updateTerm 2 1, .campaign 2, .write 2, .persist 2,
+  .updateTerm 2 1, .campaign 2, .sendReqVote 2, .write 2, .persist 2,
   .updateTerm 3 2, .grant 3 2 1 1, .write 3, .persist 3, .sendVote 3 2 2,
   .becomeLeader 2 [2, 3]]
 
-example : issue1Trace.length = 32 := by decide
-example : (run cfg3 State.init (issue1Trace.take 31)).isSome = true := by decide
+example : issue1Trace.length = 35 := by decide
+example : (run cfg3 State.init (issue1Trace.take 34)).isSome = true := by decide
 example : (run cfg3 State.init issue1Trace).isSome = false := by decide
 
 /-- The guard only asks for "at least as up to date": node 2 campaigns for term 2 with an empty log
-(request `(0,0)`, volatile), crashes back to term 1, receives `(1,7)` from the term-1 leader,
+(request `(0,0)`, volatile, sent), crashes back to term 1, receives `(1,7)` from the term-1 leader,
 campaigns for term 2 again (request `(1,1)`), node 3 answers the *first* request, and node 2 is
 elected with the grown log — harmless, and enabled. -/
 def regrowTrace : List Action := [
-  .campaign 1, .write 1, .persist 1,
+  .campaign 1, .sendReqVote 1, .write 1, .persist 1,
   .updateTerm 3 1, .grant 3 1 0 0, .write 3, .persist 3, .sendVote 3 1 1,
   .becomeLeader 1 [1, 3],
   .leaderAppend 1 7, .sendApp 1 0 1 0,
   .updateTerm 2 1, .write 2, .persist 2,
-  .campaign 2, .crash 2,
+  .campaign 2, .sendReqVote 2, .crash 2,
   .handleApp 2 1 0 0 [⟨1, 7⟩] 0,
-  .campaign 2, .write 2, .persist 2,
+  .campaign 2, .sendReqVote 2, .write 2, .persist 2,
   .updateTerm 3 2, .grant 3 2 0 0, .write 3, .persist 3, .sendVote 3 2 2,
   .becomeLeader 2 [2, 3]]
 
 example : (run cfg3 State.init regrowTrace).isSome = true := by decide
 example : (run cfg3 State.init regrowTrace).map (fun s => (s.elected, s.glog 2)) =
     some ([(2, 2), (1, 1)], [⟨1, 7⟩]) := by decide
+
+/-! ### A vote request that was created but never sent constrains nothing
+
+The implementation creates the vote request at campaign time but hands it to the network only with
+the next `Ready`.  Node 2 leads term 1 (elected by nodes 1 and 2) and appends `(1,7)`, `(1,8)`.
+Node 3 joins term 1 durably, receives both entries (volatile only) and campaigns for term 2 — the
+request `(lastTerm 1, lastIdx 2)` exists only inside the node — then crashes: back to term 1 with an
+empty log.  It receives only `(1,7)`, campaigns for term 2 again, sends *this* request `(1,1)`, node 1
+(whose log is empty) grants durably, node 3 persists its own vote and is elected with the log
+`[(1,7)]`.  With `campaign` putting the request into the soup this run was rejected at the last
+action (the first request is not covered by the shorter log); it is an execution now. -/
+
+/-- up to the moment node 3 holds both entries (volatile) in term 1 -/
+def unsentHead : List Action := [
+  .campaign 2, .sendReqVote 2, .write 2, .persist 2,
+  .updateTerm 1 1, .grant 1 2 0 0, .write 1, .persist 1, .sendVote 1 1 2,
+  .becomeLeader 2 [1, 2],
+  .leaderAppend 2 7, .leaderAppend 2 8, .sendApp 2 0 2 0, .sendApp 2 0 1 0,
+  .updateTerm 3 1, .write 3, .persist 3,
+  .handleApp 3 1 0 0 [⟨1, 7⟩, ⟨1, 8⟩] 0]
+
+/-- crash of node 3, shorter log, second candidacy for term 2, election by nodes 1 and 3 -/
+def unsentTail : List Action := [
+  .crash 3,
+  .handleApp 3 1 0 0 [⟨1, 7⟩] 0,
+  .campaign 3, .sendReqVote 3, .write 3, .persist 3,
+  .updateTerm 1 2, .grant 1 3 1 1, .write 1, .persist 1, .sendVote 1 2 3,
+  .becomeLeader 3 [1, 3]]
+
+/-- the first candidacy of node 3 (between `unsentHead` and `unsentTail`) never sends its request -/
+def unsentRequestTrace : List Action := unsentHead ++ [.campaign 3] ++ unsentTail
+
+example : (run cfg3 State.init unsentRequestTrace).isSome = true := by decide
+example : (run cfg3 State.init unsentRequestTrace).map (fun s => (s.elected, s.glog 1, s.glog 2)) =
+    some ([(2, 3), (1, 2)], [⟨1, 7⟩, ⟨1, 8⟩], [⟨1, 7⟩]) := by decide
+
+/-- node 3 was candidate of term 2 twice, with the logs `[(1,7),(1,8)]` and `[(1,7)]`; only the
+second request is in the soup -/
+example : (run cfg3 State.init unsentRequestTrace).map (fun s => s.msgs.filter fun m =>
+    match m with | .reqVote 2 _ _ _ => true | _ => false) = some [.reqVote 2 3 1 1] := by decide
+
+/-- had the first candidacy sent its request `(1,2)`, the election with the shorter log would be
+rejected (`reqVotesCovered`), exactly at the last action -/
+def sentRequestTrace : List Action := unsentHead ++ [.campaign 3, .sendReqVote 3] ++ unsentTail
+
+example : sentRequestTrace.length = 32 := by decide
+example : (run cfg3 State.init (sentRequestTrace.take 31)).isSome = true := by decide
+example : (run cfg3 State.init sentRequestTrace).isSome = false := by decide
+
+/-- the theorems apply to this run -/
+example : ∀ s, run cfg3 State.init unsentRequestTrace = some s →
+    ElectionSafety s ∧ LogMatching s ∧ LeaderCompleteness s ∧ StateMachineSafety s := by
+  intro s hs
+  have hr := reachable_of_run cfg3 _ s _ Reachable.init hs
+  exact ⟨election_safety cfg3 cfg3_ok s hr, log_matching cfg3 cfg3_ok s hr,
+    leader_completeness cfg3 cfg3_ok s hr, state_machine_safety cfg3 cfg3_ok s hr⟩
 
 end RaftVerif.Spec
